@@ -6,7 +6,9 @@ From EQ Require Import lib.Num lib.NpList lib.Chk model.M_sdof.
 Import ListNotations.
 
 Record case := { c_c2pi : Q; c_xi : Q; c_periods : list Q; c_rec : list Q; c_cfs : list (list Q);
-                 c_u : list (list Q); c_v : list (list Q); c_a : list (list Q); c_rtol : Q }.
+                 c_u : list (list Q); c_v : list (list Q); c_a : list (list Q); c_rtol : Q;
+                 c_global : bool (* true: compare with the exactly propagated model series (small exact-domain cases);
+                                    false: check the model's one-step relation on the implementation's own series *) }.
 
 Definition mkc (l : list Q) : coeffs Q :=
   match l with [a; b; c; d; e; f; g; h] => mkC a b c d e f g h | _ => mkC 0 0 0 0 0 0 0 0 end.
@@ -55,10 +57,40 @@ Definition zero_row_ok (c : case) : bool :=
     end
   else true.
 
+(** Local form of the recurrence, evaluated on the implementation's own series: state 0 is (0,0) and every next state is
+    [nj_step] of the previous one, within rtol * (sum of the absolute values of the four terms) — about 1000 roundings.
+    With tolerance 0 this forces the series to BE [nj_series] (induction over the samples); it keeps every number at
+    binary64 size, so records of any length can be checked. *)
+Definition term_scale (c : coeffs Q) (u v f0 f1 : Q) : Q * Q :=
+  (Qabs (a11 c * u) + Qabs (a12 c * v) + Qabs (b11 c * f0) + Qabs (b12 c * f1),
+   Qabs (a21 c * u) + Qabs (a22 c * v) + Qabs (b21 c * f0) + Qabs (b22 c * f1)).
+Fixpoint local_from (rtol : Q) (c : coeffs Q) (u v f0 : Q) (us vs fs : list Q) : bool :=
+  match us, vs, fs with
+  | [], [], [] => true
+  | u1 :: us', v1 :: vs', f1 :: fs' =>
+      let '(mu, mv) := nj_step c (u, v) f0 f1 in
+      let '(su, sv) := term_scale c u v f0 f1 in
+      qclose (rtol * su) mu u1 && qclose (rtol * sv) mv v1 && local_from rtol c u1 v1 f1 us' vs' fs'
+  | _, _, _ => false
+  end.
+Definition local_row (rtol : Q) (c : coeffs Q) (rec us vs : list Q) : bool :=
+  match us, vs, map Qopp rec with
+  | [], [], [] => true
+  | u0 :: us', v0 :: vs', f0 :: fs' => Qeqb u0 0 && Qeqb v0 0 && local_from rtol c 0 0 f0 us' vs' fs'
+  | _, _, _ => false
+  end.
+Fixpoint local_rows (rtol : Q) (cs : list (coeffs Q)) (rec : list Q) (iu iv : list (list Q)) : bool :=
+  match cs, iu, iv with
+  | [], [], [] => true
+  | c :: cs', u :: iu', v :: iv' => local_row rtol c rec u v && local_rows rtol cs' rec iu' iv'
+  | _, _, _ => false
+  end.
+
 Definition check_case (c : case) : bool :=
-  rows_ok (c_rtol c) (c_xi c) (row_ws c) (model_out c) (c_u c) (c_v c) (c_a c)
+  let lz := leading_zero (c_periods c) in
+  (if c_global c then rows_ok (c_rtol c) (c_xi c) (row_ws c) (model_out c) (c_u c) (c_v c) (c_a c)
+   else local_rows (c_rtol c) (map mkc (c_cfs c)) (c_rec c) (if lz then tl (c_u c) else c_u c) (if lz then tl (c_v c) else c_v c))
+  && Nat.eqb (length (c_u c)) (length (c_periods c))
   && zero_row_ok c
-  && thirds_ok (c_rtol c) (c_xi c) (if leading_zero (c_periods c) then tl (row_ws c) else row_ws c)
-       (if leading_zero (c_periods c) then tl (c_u c) else c_u c)
-       (if leading_zero (c_periods c) then tl (c_v c) else c_v c)
-       (if leading_zero (c_periods c) then tl (c_a c) else c_a c).
+  && thirds_ok (c_rtol c) (c_xi c) (if lz then tl (row_ws c) else row_ws c)
+       (if lz then tl (c_u c) else c_u c) (if lz then tl (c_v c) else c_v c) (if lz then tl (c_a c) else c_a c).
